@@ -159,6 +159,8 @@ def main():
     from props import c06
     for inst in c06.instances('quick'):
         aut, ids, wit, apath = c06.mc_extracted(chk, inst)
+        if aut is None:
+            continue
         c06.conformance(chk, inst, aut, ids, wit, apath, 25 if quick else 300)
     shapes = json.load(open(os.path.join(lib.VERIF, 'bindings', 'checkdigit_shapes.json')))
     p = {'seed': chk.seed, 'shapes': shapes, 'bases': 15 if quick else 300, 'payloads': 10 if quick else 100, 'synth': 25 if quick else 400, 'skip_p2': bind.get('skip_p2', {})}
